@@ -100,7 +100,17 @@ AtomicMove<SlotType, BUFFER_SIZE> {
     }
 
     #[inline(always)]
+    #[cfg_attr(feature = "verif", allow(unreachable_code))]
     fn available_elements_count(&self) -> usize {
+        // verification build: the two loads of the expression below, in its evaluation order (`tail`, then `head`), with a yield point in front of each
+        #[cfg(feature = "verif")]
+        {
+            vp!("am.len");
+            let tail = self.tail.load(Relaxed);
+            vp!("am.len.head");
+            let head = self.head.load(Relaxed);
+            return tail.overflowing_sub(head).0 as usize;
+        }
         vp!("am.len");
         self.tail.load(Relaxed).overflowing_sub(self.head.load(Relaxed)).0 as usize
     }
